@@ -70,9 +70,13 @@ def production_seq(res, sem, ref):
         return None
     if s.kind != "plugin":
         return None
-    if ref.stage == "outputs" or ref.stage == "crashed":
+    if ref.stage == "outputs":
         ends = [e for e in events_of(res, "exec-end", s.src)]
         return ends[0]["seq"] if ends else -1
+    if ref.stage == "crashed":
+        # a crash during start (hello / schema faults) has no plugin-side execution: not observable here
+        ends = [e for e in events_of(res, "exec-end", s.src)]
+        return ends[0]["seq"] if ends else None
     if ref.stage == "starting":
         # started is reported after the plugin was deployed and its input handed over: deploy-ok precedes it
         oks = [e for e in events_of(res, "deploy-ok", s.src) if (e.get("data") or {}).get("nth", {}) != 1]
